@@ -803,6 +803,10 @@ func checkSeqExec(r *vk.Run, c SeqCase, class string) *vk.Fail {
 		case ref.Err != "":
 			continue
 		case res.Err != nil:
+			if ref.Lenient != "" && strings.Contains(res.Err.Error(), "unknown identifier") {
+				r.Exclude("nested unknown identifier not forgiven")
+				return nil
+			}
 			return fail("execution %d: reference values %v, failed: %v", i+1, want.vals, res.Err)
 		case len(got.vals) != 1 || !sameVal(got.vals[0], want.vals[0]):
 			return fail("execution %d gave %v, reference says %s", i+1, got.vals, model.Describe(want.vals[0]))
